@@ -50,10 +50,20 @@ type loopShape struct {
 	bound    ssa.Value // compared against (useIdx < bound)
 	initTerm ssa.Value // initial value of useIdx sequence (for non-zero starts): value v such that first useIdx = v
 	initAdd  int64     // first useIdx = initTerm + initAdd
+	step     int64     // the induction variable advances by this constant (1 unless found by findCountedLoopStep)
 }
 
 // findCountedLoop recognises `for i := init; i < bound; i++` (and the range lowering) at header h.
 func findCountedLoop(h *ssa.BasicBlock) (*loopShape, string) {
+	ls, why := findCountedLoopStep(h)
+	if ls != nil && ls.step != 1 {
+		return nil, "induction step is not +1"
+	}
+	return ls, why
+}
+
+// findCountedLoopStep: like findCountedLoop, with any positive constant step.
+func findCountedLoopStep(h *ssa.BasicBlock) (*loopShape, string) {
 	if len(h.Instrs) == 0 {
 		return nil, "empty block"
 	}
@@ -109,9 +119,10 @@ func findCountedLoop(h *ssa.BasicBlock) (*loopShape, string) {
 	if next == nil {
 		bo, ok := backV.(*ssa.BinOp)
 		c, isC := constInt(boY(backV))
-		if !ok || bo.Op != token.ADD || bo.X != ssa.Value(phi) || !isC || c != 1 {
-			return nil, "induction step is not +1"
+		if !ok || bo.Op != token.ADD || bo.X != ssa.Value(phi) || !isC || c < 1 {
+			return nil, "induction step is not a positive constant"
 		}
+		ls.step = c
 		ls.initTerm, ls.initAdd = initV, 0
 		if c0, isC0 := constInt(initV); isC0 && c0 == 0 {
 			ls.initOK = true
@@ -120,6 +131,7 @@ func findCountedLoop(h *ssa.BasicBlock) (*loopShape, string) {
 		if backV != next {
 			return nil, "range-form induction does not carry phi+1"
 		}
+		ls.step = 1
 		ls.initTerm, ls.initAdd = initV, 1
 		if c0, isC0 := constInt(initV); isC0 && c0 == -1 {
 			ls.initOK = true
